@@ -92,3 +92,49 @@ func VerifC04Create(nMan int) {
 	}
 	vfCheckRemovals("blob-still-referenced-by-another-model-is-not-removed")
 }
+
+// ---- copy: the real CopyHandler ----
+
+var (
+	vfCopyReq  api.CopyRequest
+	vfCopySrc  model.Name
+	vfCopyDst  model.Name
+	vfCopied   bool
+)
+
+func vfCopyModel(src, dst model.Name) error {
+	vfCopySrc, vfCopyDst, vfCopied = src, dst, true
+	return nil
+}
+
+// VerifC04Copy: models h/n/a:t and h/n/b:t exist; a is copied to an arbitrary letter-case variant of
+// h/n/b:t (an existing model), h/n/a:t (itself) or h/n/c:t (a new name).
+func VerifC04Copy() {
+	vfStore = map[model.Name]*Manifest{}
+	for _, m := range []string{"a", "b"} {
+		vfStore[model.Name{Host: "h", Namespace: "n", Model: m, Tag: "t"}] = &Manifest{SchemaVersion: 2}
+	}
+	base := []string{"h/n/a:t", "h/n/b:t", "h/n/c:t"}[verifChoice(3)]
+	b := []byte(base)
+	for i := range b {
+		ch := b[i]
+		if ch >= 'a' && ch <= 'z' && verifNondetBool("upper") {
+			b[i] = ch - 32
+		}
+	}
+	vfCopied, vfStatus = false, 200
+	vfCopyReq = api.CopyRequest{Source: "h/n/a:t", Destination: string(b)}
+	s := &Server{}
+	s.CopyHandler(&gin.Context{})
+	verifReach("copy-returned")
+	verifAssert(vfStatus == 200, "copy-succeeds")
+	if vfCopied {
+		verifReach("copied")
+		verifAssert(vfCopySrc == model.Name{Host: "h", Namespace: "n", Model: "a", Tag: "t"}, "copy-reads-the-source-model")
+		for e := range vfStore {
+			if e.EqualFold(vfCopyDst) {
+				verifAssert(e == vfCopyDst, "copy-onto-another-spelling-of-an-existing-model-uses-its-stored-spelling")
+			}
+		}
+	}
+}
